@@ -2,7 +2,7 @@ INIT Init
 NEXT Next
 CONSTANTS
   SpeciesSeq <- Species5
-  Catalog <- Cat6
+  Catalog <- Cat4
   Comp <- NoComp
   UseComp = FALSE
   MaxRx = 2
